@@ -107,7 +107,24 @@ def gen_hazard_exprs(src):
     want = 'self.edges.beta[inds] * (1 - (1 - disease_beta) ** (self.edges.acts[inds] * self.t.dt))'
     if nb != want:
         raise ExtractError(f'net_beta of the sexual network changed: {nb}')
-    facts = dict(birthsTimeParFactor=_check('Births.get_births', b_tp), birthsNumberFactor=_check('Births.get_births', b_num),
+    # DynamicNetwork.end_pairs: dur = dur - <decrement>; kept while dur > 0
+    ep = src.func('starsim/networks.py', 'end_pairs', 'DynamicNetwork')
+    dec = None
+    for n in ast.walk(ep):
+        if isinstance(n, ast.Assign) and unparse(n.targets[0]) == 'self.edges.dur' and isinstance(n.value, ast.BinOp) and isinstance(n.value.op, ast.Sub) \
+                and unparse(n.value.left) == 'self.edges.dur':
+            dec = unparse(n.value.right)
+        if isinstance(n, ast.AugAssign) and unparse(n.target) == 'self.edges.dur' and isinstance(n.op, ast.Sub):
+            dec = unparse(n.value)
+    if dec not in ('self.t.dt',):
+        raise ExtractError(f'DynamicNetwork.end_pairs: edge duration decrement changed: {dec}')
+    if not any(isinstance(n, ast.Compare) and unparse(n) == 'self.edges.dur > 0' for n in ast.walk(ep)):
+        raise ExtractError('DynamicNetwork.end_pairs: `self.edges.dur > 0` keep condition not found')
+    # Pregnancy: the table row is the year nearest to now - dur_pregnancy (in years)
+    fy = [unparse(n.value) for n in ast.walk(fp) if isinstance(n, ast.Assign) and unparse(n.targets[0]) == 'year_ind']
+    if fy != ["sc.findnearest(frd.index, self.t.now('year') - self.pars.dur_pregnancy.to('year'))"]:
+        raise ExtractError(f'Pregnancy.make_fertility_prob_fn: year lookup changed: {fy}')
+    facts = dict(edgeDecrement=dec, birthsTimeParFactor=_check('Births.get_births', b_tp), birthsNumberFactor=_check('Births.get_births', b_num),
                  deathsTimeParFactor=_check('Deaths.make_death_prob_fn', d_tp), deathsNumberFactor=_check('Deaths.make_death_prob_fn', d_num),
                  fertilityNumberFactor=_check('Pregnancy.make_fertility_prob_fn', tf[0]),
                  ageingIncrement=_check('People.update_post', inc[0]),
